@@ -228,6 +228,12 @@ def check(case, mon):
             "subset_size": int(cells.size)}
 
     _check_extract(pp, g, ref, cells, what, mon)
+    # the documented sort=False form, on the subset in its random order and on ALL cells in
+    # a random order (a permutation of the whole grid is a legal cell set)
+    _check_extract(pp, g, ref, cells, {**what, "sort": False}, mon, sort=False)
+    if g.num_cells <= 60:
+        _check_extract(pp, g, ref, rng.permutation(g.num_cells),
+                       {**what, "sort": False, "subset": "all-cells-permuted"}, mon, sort=False)
     _check_overlap(pp, g, ref, cells, int(case["layers"]), what, mon)
     _check_connected(pp, g, ref, cells, what, mon)
     _check_partition_coordinates(pp, g, ref, int(case["parts"]), rng, what, mon)
@@ -239,8 +245,12 @@ def check(case, mon):
 
 
 # ---- extract_subgrid
-def _check_extract(pp, g, ref, cells, what, mon):
-    h, fmap, nmap = pp.partition.extract_subgrid(g, cells.copy())
+def _check_extract(pp, g, ref, cells, what, mon, sort=True):
+    if sort:
+        h, fmap, nmap = pp.partition.extract_subgrid(g, cells.copy())
+    else:
+        h, fmap, nmap = pp.partition.extract_subgrid(g, cells.copy(), sort=False)
+        mon.count("op:extract_subgrid:sort=False")
     mon.count("op:extract_subgrid")
     fmap = np.asarray(fmap)
     nmap = np.asarray(nmap)
